@@ -49,34 +49,36 @@ def delegation(facts, it, name_ok, self_field=None):
     return out
 
 
-@rule('LWW-UPDATE', dict(ABSORB_WHY, **{
-    'C11': 'an assignment reachable under self.marker > m lets an older write overwrite a newer one; not assigning under < loses the newest',
-}), floor=1)
-def lww_update(ctx):
-    """LWWReg::update assigns both val and marker from the arguments: must under self.marker < m, never under >."""
-    facts = ctx.facts
-    body = ctx.inherent(LWWREG, 'update')
+def _lww_assign_clause(facts, body):
+    """The function stores an incoming (value, marker) pair into self.val / self.marker together - must when self.marker < the new
+    marker, never when it is greater.  The pair is a pair of parameters (update), or the fields of the incoming register (merge /
+    apply written out, or inlined).  Returns (errors, details, found)."""
     it = interp(facts, body)
     sites = {}
     for (bb, si), w in it.writes.items():
         tgt = loc_target(it, w.loc)
         v = versionless(w.val)
-        if tgt and tgt[0] == 1 and len(tgt[1]) == 1 and v[0] == 'param':
-            sites[tgt[1][0]] = (bb, v[1])
-        elif tgt and tgt[0] == 1 and len(tgt[1]) == 0 and v[0] == 'agg' and v[1] == LWWREG:
+        if not tgt or tgt[0] != 1:
+            continue
+        if len(tgt[1]) == 1 and (v[0] == 'param' or (v[0] == 'field' and v[1] == ('param', 2) and v[2] == tgt[1][0])):
+            sites[tgt[1][0]] = (bb, v)
+        elif len(tgt[1]) == 0 and v[0] == 'agg' and v[1] == LWWREG:
             # `*self = LWWReg { val, marker }`: both fields assigned at once
             for fname, fv in v[3]:
                 fv = versionless(fv)
-                if fv[0] == 'param':
-                    sites[fname] = (bb, fv[1])
+                if fv[0] == 'param' or (fv[0] == 'field' and fv[1] == ('param', 2) and fv[2] == fname):
+                    sites[fname] = (bb, fv)
+        elif len(tgt[1]) == 0 and v == ('param', 2):
+            # `*self = other`: the whole incoming register
+            for fname in ('val', 'marker'):
+                sites[fname] = (bb, ('field', ('param', 2), fname))
     if set(sites) != {'val', 'marker'}:
-        ctx.fail('update', body, 'update does not assign both val and marker from its arguments (assigned: %s)' % sorted(sites))
-        return
-    mparam = sites['marker'][1]
+        return ['does not assign both val and marker from its arguments (assigned: %s)' % sorted(sites)], {}, False
+    mterm = sites['marker'][1]
 
     def classify(a, b, t):
         for x, y, orient in ((a, b, 'fwd'), (b, a, 'rev')):
-            if versionless(x) == ('field', ('param', 1), 'marker') and versionless(y) == ('param', mparam):
+            if versionless(x) == ('field', ('param', 1), 'marker') and versionless(y) == mterm:
                 return ('m', orient)
         return None
     res = {}
@@ -97,6 +99,20 @@ def lww_update(ctx):
             errs.append('%s is assigned although self.marker is greater than the new marker (an older write wins)' % f)
     if res[EQ]['val'][0] != res[EQ]['marker'][0]:
         errs.append('val and marker are not assigned together')
+    return errs, det, True
+
+
+@rule('LWW-UPDATE', dict(ABSORB_WHY, **{
+    'C11': 'an assignment reachable under self.marker > m lets an older write overwrite a newer one; not assigning under < loses the newest',
+}), floor=1)
+def lww_update(ctx):
+    """LWWReg::update assigns both val and marker from the arguments: must under self.marker < m, never under >."""
+    facts = ctx.facts
+    body = ctx.inherent(LWWREG, 'update')
+    errs, det, found = _lww_assign_clause(facts, body)
+    if not found:
+        ctx.fail('update', body, 'update ' + errs[0])
+        return
     ctx.check(not errs, 'update', body, 'val and marker assigned together: must under {Lt}, never under {Gt}', errs[0] if errs else '', details=det)
 
 
@@ -185,6 +201,11 @@ def lww_route(ctx):
                                         ('CvRDT', 'validate_merge', {'validate_update'}, ['C17', 'C11']), ('CmRDT', 'validate_op', {'validate_update'}, ['C16', 'C11'])):
         body = ctx.method(LWWREG, trait, name)
         ok, msg = _routes_to(facts, ctx, body, targets, True, name, props)
+        if not ok and targets == {'update'}:
+            # no delegation to update: the function may do the guarded store itself (written out, or a shared helper inlined)
+            errs, det, found = _lww_assign_clause(facts, body)
+            if found and not errs:
+                ok, msg = True, 'stores (other.val, other.marker) itself under self.marker < other.marker'
         ctx.check(ok, name, body, msg, 'LWWReg::%s %s' % (name, msg), props=props)
 
 
@@ -327,7 +348,7 @@ def cnt_read(ctx):
             return bool(pp and pp[0] == 1 and not lp.source()[2] and not (set(iter_adaptors(lp.src)) & LOSSY_ADAPTORS))
 
         def step_ok(c, lp):
-            if call_name(c.term) != 'add_assign' or len(c.args) != 2:
+            if call_name(c.term) not in ('add_assign', 'add') or len(c.args) != 2:
                 return False
             v = versionless(strip_lossless(c.args[1].val))
             return v[0] == 'field' and v[2] == 'counter' and as_item(v[1]) is not None and item_derived(c.args[1].val, lp)
